@@ -204,11 +204,122 @@ theorem C03_batches_partition {α : Type} (l : List α) (b : Nat) (hb : 0 < b) :
     simp only [List.length_take, List.length_drop]
     omega
 
+/-! ### column ↔ field resolution (schema.go registration loop + `LookUpField`), pooled scan holders, DO NOTHING skip -/
+
+/-- COLUMN → FIELD, every schema: for ANY list of parsed fields — any Go names and column names (also a column that is
+    spelled like the Go name of another field), embedded members at any depth, permission and `-` tags, several
+    fields claiming one column — a name that is a column of some field is resolved by `LookUpField` to a field that
+    HAS this column; a field that merely carries that Go name is never returned. -/
+theorem C03_lookup_column_owner {α : Type} [DecidableEq α] (fs : List (PField α)) (c : α) (i : Nat)
+    (hcol : ∃ (j : Nat) (f : PField α), fs[j]? = some f ∧ f.dbName = some c)
+    (h : lookUpField (parseReg fs) c = some i) : ∃ f, fs[i]? = some f ∧ f.dbName = some c := by
+  obtain ⟨hA, hB⟩ := parseReg_inv fs
+  obtain ⟨j, f, hj, hc⟩ := hcol
+  have hjl : j < fs.length := by
+    rcases Nat.lt_or_ge j fs.length with h' | h'
+    · exact h'
+    · rw [List.getElem?_eq_none h'] at hj; cases hj
+  have hs := hB j f c hjl hj hc
+  cases he : assoc c (parseReg fs).byDB with
+  | none => rw [he] at hs; cases hs
+  | some e =>
+    simp only [lookUpField, he, Option.some.injEq] at h
+    obtain ⟨_, h2, h3⟩ := hA c e he
+    exact ⟨e.2, by rw [← h]; exact h2, h3⟩
+
+/-- … and when no two fields share a column (the schemas the round-trip property speaks about), EVERY field is found
+    under its own column, whatever the Go names of the other fields are: the scan of a result set puts column `c`
+    into exactly the field that Create wrote to column `c`. -/
+theorem C03_lookup_distinct_columns {α : Type} [DecidableEq α] (fs : List (PField α))
+    (hd : ∀ (i j : Nat) (f g : PField α), fs[i]? = some f → fs[j]? = some g → f.dbName = g.dbName → f.dbName ≠ none → i = j)
+    (i : Nat) (f : PField α) (c : α) (hf : fs[i]? = some f) (hc : f.dbName = some c) :
+    lookUpField (parseReg fs) c = some i := by
+  obtain ⟨hA, hB⟩ := parseReg_inv fs
+  have hil : i < fs.length := by
+    rcases Nat.lt_or_ge i fs.length with h' | h'
+    · exact h'
+    · rw [List.getElem?_eq_none h'] at hf; cases hf
+  have hs := hB i f c hil hf hc
+  cases he : assoc c (parseReg fs).byDB with
+  | none => rw [he] at hs; cases hs
+  | some e =>
+    obtain ⟨_, h2, h3⟩ := hA c e he
+    have : e.1 = i := hd e.1 i e.2 f h2 hf (by rw [h3, hc]) (by rw [h3]; simp)
+    simp [lookUpField, he, this]
+
+/-- non-vacuity / the precedence matters: `Name string column:DisplayName` next to `LegacyName string column:Name`
+    (names 1 = "Name", 2 = "DisplayName", 3 = "LegacyName"): column "Name" is field 1 (LegacyName) although the Go-name
+    map knows "Name" as field 0 -/
+example : lookUpField (parseReg [⟨1, some 2, 1, true, false⟩, ⟨3, some 1, 1, true, false⟩]) (1 : Nat) = some 1 ∧
+    (assoc (1 : Nat) (parseReg [⟨1, some 2, 1, true, false⟩, ⟨3, some 1, 1, true, false⟩]).byName).map (·.1) = some 0 := by
+  decide
+
+/-- POOLED HOLDERS: with the holder re-instantiated from the prototype after every row (field.go:970-972), each
+    record receives its own document decoded into a FRESH receiver — for every Scan, however incremental (`merge`
+    arbitrary), every prototype and every number of rows: nothing of row i survives into row i+1. -/
+theorem C03_pool_rows_independent {σ δ : Type} (merge : σ → δ → σ) (proto : σ) (ds : List δ) :
+    scanLoop merge proto true proto ds = ds.map (merge proto) := by
+  rw [scanLoop_renew]
+  cases ds <;> rfl
+
+/-- … and the re-instantiation is needed: without it an incremental Scan (NULL ignored, absent JSON members kept)
+    hands later rows the members of earlier ones -/
+theorem C03_pool_renew_needed :
+    scanLoop mergeDoc [0, 0] false [0, 0] [some [some 7, some 8], some [none, some 1], none] = [[7, 8], [7, 1], [7, 1]] ∧
+    [some [some 7, some 8], some [none, some 1], none].map (mergeDoc [0, 0]) = [[7, 8], [0, 1], [0, 0]] := by
+  decide
+
+/-- RETURNING + `ON CONFLICT DO NOTHING` (scan.go skip heuristic): when no element carries a preset key nothing is
+    skipped — the scan is the plain row j → element j assignment of `C03_returning_row_to_element` -/
+theorem C03_conflict_skip_zero_keys (ks rows : List Key) (hz : AllZero ks) : scanUpdateDN ks rows = scanUpdate ks rows := by
+  induction ks generalizing rows with
+  | nil => cases rows <;> rfl
+  | cons k ks ih =>
+    have hk : k = 0 := hz k (by simp)
+    have hr : AllZero ks := fun x hx => hz x (by simp [hx])
+    cases rows with
+    | nil => rfl
+    | cons r rows => simp [scanUpdateDN, scanUpdate, hk, ih rows hr]
+
+private theorem scanUpdateDN_nil (ks : List Key) : scanUpdateDN ks [] = ks := by cases ks <;> rfl
+
+/-- RETURNING + `ON CONFLICT DO NOTHING`, the negation of finding F21's pattern: `elems` = (key before Create, key of
+    the row that stores the element — `none` when the element conflicted and was not stored).  When exactly the
+    zero-key elements are stored (every preset-key element conflicts), the skip heuristic hands every stored element
+    the key of ITS row and leaves the others alone — for every batch. -/
+theorem C03_conflict_skip_partial (elems : List (Key × Option Key))
+    (h : ∀ e ∈ elems, (e.1 = 0 ↔ e.2.isSome = true)) :
+    scanUpdateDN (elems.map (·.1)) (elems.filterMap (·.2)) = elems.map (fun e => e.2.getD e.1) := by
+  induction elems with
+  | nil => rfl
+  | cons e es ih =>
+    have ih' := ih (fun x hx => h x (by simp [hx]))
+    obtain ⟨k, r⟩ := e
+    have he := h (k, r) (by simp)
+    cases r with
+    | none =>
+      have hk : k ≠ 0 := by intro h0; have := he.mp h0; simp at this
+      simp only [List.map_cons, List.filterMap_cons, Option.getD_none]
+      cases hr : es.filterMap (·.2) with
+      | nil => rw [hr] at ih'; rw [scanUpdateDN_nil] at ih' ⊢; rw [← ih']
+      | cons r' rows' => rw [hr] at ih'; simp [scanUpdateDN, hk, ih']
+    | some x =>
+      have hk : k = 0 := he.mpr rfl
+      simp [scanUpdateDN, hk, ih']
+
+/-- FINDING F21 (kernel-checked witness): RETURNING + DO NOTHING, empty table, `Create(&[]U{{ID:100}, {}})`: both
+    rows are inserted and returned (100, 101); element 0 is skipped for its preset key and element 1 receives row 0's
+    key — the record stored in row 101 carries key 100. -/
+theorem C03_conflict_skip_counterexample :
+    (dbInsert 0 [100, 0]).1 = [100, 101] ∧ scanUpdateDN [100, 0] (dbInsert 0 [100, 0]).1 = [100, 100] := by
+  decide
+
 /-- non-vacuity: representable values exist at the boundaries; the partial theorem's hypothesis is satisfiable
     by non-trivial batches -/
 example : representable { base := .int .w8 } (some (.int .i8 (-128))) = true := by decide
 example : representable { base := .uint .w64, ptr := true } (some (.int .u64 9223372036854775807)) = true := by decide
 example : ¬ Mixed [0, 0, 0] ∧ ¬ Mixed [7, 9] := by decide
+example : ∀ e ∈ [((0 : Key), some (5 : Key)), (9, none), (0, some 6)], (e.1 = 0 ↔ e.2.isSome = true) := by decide
 /-- and out-of-width values are really changed by the setter (the hypothesis is needed) -/
 example : setField { base := .int .w8 } none (.val false (.int .i64 300)) = .ok (some (.int .i8 44)) := by rfl
 
